@@ -47,14 +47,14 @@ func exerciseAuxPow(t vk.TB, wire []byte, blockHash common.Uint256, chainID int)
 		return false, false
 	}
 	if p, pv, frame := vk.Catch(func() { h := blockHash; accepted = ap.Check(&h, chainID) }); p {
-		vk.Report(t, "C03:panic:"+frame, fmt.Sprintf("AuxPow.Check panicked: %v", pv), render(pv))
+		vk.Report(t, panicSig(frame, pv), fmt.Sprintf("AuxPow.Check panicked: %v", pv), render(pv))
 		return true, false
 	}
 	if p, pv, frame := vk.Catch(func() {
 		auxpow.GetMerkleRoot(blockHash, ap.AuxMerkleBranch, ap.AuxMerkleIndex)
 		auxpow.GetMerkleRoot(ap.ParCoinbaseTx.Hash(), ap.ParCoinBaseMerkle, ap.ParMerkleIndex)
 	}); p {
-		vk.Report(t, "C03:panic:"+frame, fmt.Sprintf("GetMerkleRoot panicked: %v", pv), render(pv))
+		vk.Report(t, panicSig(frame, pv), fmt.Sprintf("GetMerkleRoot panicked: %v", pv), render(pv))
 	}
 	return true, accepted
 }
@@ -69,7 +69,8 @@ type auxSpec struct {
 	Nonce      uint32
 	ParBranch  int
 	ParIndex   uint32
-	ScriptKind int // 0 canonical, 1 no marker, 2 truncated after root, 3 raw
+	ScriptKind int // 0 canonical, 1 no marker, 2 three bytes after the root, 3 raw, 4 canonical minus 1-4 trailing bytes
+	Cut        int
 	Raw        []byte
 	HonestSize bool
 	HonestIdx  bool
@@ -86,7 +87,10 @@ func drawAuxSpec(t *rapid.T) auxSpec {
 	s.Index = rapid.SampledFrom([]uint32{0, 1, 2, 1<<31 - 1, 1 << 31, 0xffffffff}).Draw(t, "index")
 	s.ParBranch = rapid.SampledFrom([]int{0, 0, 1, 3, 33}).Draw(t, "parBranch")
 	s.ParIndex = rapid.SampledFrom([]uint32{0, 1, 5, 0xffffffff}).Draw(t, "parIndex")
-	s.ScriptKind = rapid.SampledFrom([]int{0, 0, 0, 0, 1, 2, 3}).Draw(t, "scriptKind")
+	s.ScriptKind = rapid.SampledFrom([]int{0, 0, 0, 0, 1, 2, 3, 4, 4}).Draw(t, "scriptKind")
+	if s.ScriptKind == 4 {
+		s.Cut = rapid.IntRange(1, 4).Draw(t, "cut")
+	}
 	if s.ScriptKind == 3 {
 		s.Raw = rapid.SliceOfN(rapid.Byte(), 0, 60).Draw(t, "rawscript")
 	}
@@ -123,6 +127,11 @@ func (s auxSpec) build(blockHash common.Uint256, seed []byte) []byte {
 	case 2:
 		script = append(append([]byte{}, mmHeader...), reverse32(root)...)
 		script = append(script, 1, 0, 0)
+	case 4: // size present, nonce incomplete
+		script = append(append([]byte{}, mmHeader...), reverse32(root)...)
+		script = binary.LittleEndian.AppendUint32(script, size)
+		script = binary.LittleEndian.AppendUint32(script, s.Nonce)
+		script = script[:len(script)-s.Cut]
 	default:
 		script = s.Raw
 	}
@@ -198,6 +207,7 @@ func FuzzAuxPow(f *testing.F) {
 		{NIn: 1, Branches: 32, HonestSize: true},
 		{NIn: 1, Branches: 33, HonestSize: true},
 		{NIn: 2, Branches: 1, ScriptKind: 2},
+		{NIn: 1, HonestSize: true, HonestIdx: true, ScriptKind: 4, Cut: 2},
 		{NIn: 1, ScriptKind: 3, Raw: []byte{0xfa, 0xbe, 'm', 'm'}},
 	} {
 		f.Add(s.build(bh, []byte("seed")), bh[:])
